@@ -29,7 +29,8 @@ def run(report: Report, tier, seed):
                   "(_bool_sequence_length, _consecutive_thing_num, _bool_aware_static_byte_length) is proved for all type sequences (pyvc)")
     run_contracts(report, [("contracts.c06_layout", "BoolSequenceLength", "O6.13"),
                            ("contracts.c06_layout", "ConsecutiveThingNum", "O6.14"),
-                           ("contracts.c06_layout", "BoolAwareStaticByteLength", "O6.15")])
+                           ("contracts.c06_layout", "BoolAwareStaticByteLength", "O6.15"),
+                           ("contracts.c06_encode", "EncodeTuple", "O6.16")])
     jobs = jobs_for(tier, seed)
     res = A.pool_map(A.encode_case, jobs)
     bad = [r for r in res if r["problems"]]
@@ -44,6 +45,7 @@ def run(report: Report, tier, seed):
                                   bound="N in {8,16,32,64} x boundary values x versions {6,10}", cases=len(rng), distinct_nontrivial=len(rng), failures=len(rbad)))
     report.sample({"shape": jobs[40][0], "what": "assembled with set() from parts, Log(encode()) compared with algosdk"})
     report.extra["explanation"] = "P: layout arithmetic (pyvc); B: Expr layer against algosdk on generated shapes/values"
+    report.settle_undecided(lambda fn, obs: (bad[0] if bad else None) and {"input": {"shape": bad[0]["shape"], "seed": bad[0]["seed"], "version": bad[0]["version"], "in_sub": bad[0]["in_sub"]}, "problems": bad[0]["problems"][:2]})
     report.settle_refuted(lambda fn, obs: (bad[0] if bad else None) and {"input": {"shape": bad[0]["shape"], "seed": bad[0]["seed"], "version": bad[0]["version"], "in_sub": bad[0]["in_sub"]}, "problems": bad[0]["problems"][:2]})
     for b in (bad + rbad)[:3]:
         if any(o.status == "refuted" for o in report.obs):
